@@ -129,6 +129,9 @@ func Packet(r *fw.Rand, c PacketClasses) *ref.Packet {
 	case 6, 7: // two-byte
 		p.ExtKind = ref.ExtTwoByte
 		n := []int{1, r.Range(2, 6)}[c.Ext-6]
+		if c.Ext == 7 && r.Chance(1, 6) {
+			n = r.Range(7, 16) // many elements
+		}
 		for _, id := range distinctIDs(r, n, 1, 255) {
 			p.Elems = append(p.Elems, ref.Elem{ID: id, Val: r.Bytes(twoByteLen(r))})
 		}
